@@ -476,10 +476,10 @@ Proof. intros H. unfold all_edges. apply in_seq. lia. Qed.
 Definition tok (A : list nat) : nat := match c_jobserver cfg with None => 0 | Some _ => length A end.
 
 (* ---- pure update 1: a wanted edge whose inputs are ready is put into ready_ or delayed_ ---- *)
-Lemma pinv_schedule_pure X A F p d (to_ready : bool) :
-  pinv QT (d :: X) A F p -> p_want p d = Some WToStart -> all_inputs_ready g p d = true ->
+Lemma pinv_schedule_pure (Q : nat -> Prop) X A F p d (to_ready : bool) :
+  pinv Q (d :: X) A F p -> p_want p d = Some WToStart -> all_inputs_ready g p d = true ->
   (if to_ready then depth g (pool g d) = 0 else 0 < depth g (pool g d)) ->
-  pinv (fun r => r <> pool g d) X A F
+  pinv (fun r => Q r /\ r <> pool g d) X A F
        (mkPlan (upd (p_want p) d (Some WToFinish))
                (if to_ready then d :: p_ready p else p_ready p)
                (if to_ready then p_delayed p else d :: p_delayed p)
@@ -533,7 +533,7 @@ Proof.
   - intros q Hq. unfold p'. psimpl. destruct (I11 q Hq) as [H1 H2]. split; [|exact H2].
     destruct to_ready; [|exact H1]. rewrite cnt_cons.
     destruct (Nat.eqb_spec (pool g d) q) as [E|E]; [rewrite E in Hdep; lia|exact H1].
-  - intros q Hq Hdq Hdl. unfold p' in *. psimpl. apply I12; [exact I|exact Hdq|].
+  - intros q [HQq Hq] Hdq Hdl. unfold p' in *. psimpl. apply I12; [exact HQq|exact Hdq|].
     destruct to_ready; [exact Hdl|]. unfold delayed_of in *. cbn [filter] in Hdl.
     destruct (Nat.eqb_spec (pool g d) q) as [E|E]; [congruence|exact Hdl].
   - intros e He. unfold p' in He. psimpl. destruct to_ready; [apply I13; exact He|].
@@ -652,13 +652,13 @@ Proof.
   intros HI Hw Ha Hs. unfold schedule_work in Hs. unfold is_wanted in Hw.
   destruct (p_want p d) as [[| |]|] eqn:Ewd; try discriminate.
   - destruct (Nat.eqb_spec (depth g (pool g d)) 0) as [Hz|Hnz]; injection Hs as <-.
-    + pose proof (pinv_schedule_pure X A F p d true HI Ewd Ha Hz) as H.
-      refine (QT_weaken _ _ _ _ _ _ H). intros q Hq Heq. rewrite Heq in Hq. lia.
+    + pose proof (pinv_schedule_pure QT X A F p d true HI Ewd Ha Hz) as H.
+      refine (QT_weaken _ _ _ _ _ _ H). intros q Hq. split; [exact I|]. intros Heq. rewrite Heq in Hq. lia.
     + assert (Hpos : 0 < depth g (pool g d)) by lia.
-      pose proof (pinv_schedule_pure X A F p d false HI Ewd Ha Hpos) as H.
+      pose proof (pinv_schedule_pure QT X A F p d false HI Ewd Ha Hpos) as H.
       apply (retrieve_pinv _ _ _ _ _ prio (pool g d)) in H.
       refine (QT_weaken _ _ _ _ _ _ H). intros q _.
-      destruct (Nat.eq_dec q (pool g d)); [right|left]; assumption.
+      destruct (Nat.eq_dec q (pool g d)); [right; assumption|left; split; [exact I|assumption]].
   - injection Hs as <-. apply (pinv_drop _ d); [exact HI| |]; intros H; congruence.
 Qed.
 
@@ -869,12 +869,12 @@ Proof. intros H. unfold sched. apply in_or_app. right. apply in_or_app. left. ex
 Lemma in_sched_F p A F e : In e F -> In e (sched p A F).
 Proof. intros H. unfold sched. apply in_or_app. right. apply in_or_app. right. apply in_or_app. right. exact H. Qed.
 
-Lemma rel_use_spec p q u A : rel_use p q = Some u ->
+Lemma rel_use_spec p q u : rel_use p q = Some u ->
   (forall r, r <> q -> u r = p_use p r) /\
   (0 < depth g q -> S (u q) = p_use p q) /\ (depth g q = 0 -> u = p_use p).
 Proof.
   unfold rel_use. destruct (Nat.eqb_spec (depth g q) 0) as [Hz|Hnz]; cbn [negb].
-  - intros H. injection H as <-. repeat split; [lia|].
+  - intros H. injection H as <-. split; [intros; reflexivity|split; [intros; lia|intros; reflexivity]].
   - destruct (p_use p q) as [|u0] eqn:E; [discriminate|]. intros H. injection H as <-.
     split; [intros r Hr; apply upd_other; exact Hr|]. split; [intros _; rewrite upd_same; reflexivity|lia].
 Qed.
@@ -896,7 +896,7 @@ Lemma use_after_release p A F e u :
 Proof.
   intros HI Hin Hu. pose proof (pinv_nodup_A _ _ _ _ _ HI) as HndA.
   destruct HI as [I1 I2 I3 I4 I5 I6 I7 I8 I9 I10 I11 I12 I13 I14 I15].
-  destruct (rel_use_spec p (pool g e) u A Hu) as [U1 [U2 U3]].
+  destruct (rel_use_spec p (pool g e) u Hu) as [U1 [U2 U3]].
   split.
   - intros q Hq. destruct (I11 q Hq) as [H1 H2]. pose proof (cnt_rem g q e A HndA Hin) as Hc.
     destruct (Nat.eq_dec q (pool g e)) as [->|Hne].
@@ -928,9 +928,6 @@ Proof.
   apply (QT_weaken (fun r => r <> pool g e \/ r = pool g e)).
   { intros q _. destruct (Nat.eq_dec q (pool g e)); [right|left]; assumption. }
   apply retrieve_pinv.
-  replace (cons_of g e) with (cons_of g e ++ []) at 1 by apply app_nil_r.
-  rewrite app_nil_r.
-  replace (cons_of g e) with (cons_of g e ++ []) by apply app_nil_r.
   apply (pinv_done_pure (fun r => r <> pool g e) [] [] A (rem e A) F p e w); try assumption.
   - intros x [].
   - intros x [].
@@ -938,12 +935,11 @@ Proof.
     + intros Hx. split; [apply (Permutation_in _ (Permutation_sym Hperm)); right; exact Hx|].
       intros ->. exact (Hne' Hx).
     + intros [Hx Hne]. apply (Permutation_in _ Hperm) in Hx. destruct Hx as [Hx|Hx]; [congruence|exact Hx].
-  - intros q Hq Hd Hdl. apply Hfull; assumption.
   - assert (Hlt : e < n_edges g) by (apply I10; congruence).
     pose proof (count_if_flip (p_want p) e None (all_edges g) all_edges_nodup (all_edges_in e Hlt)) as Hc.
     unfold is_wanted in Hc at 1 2. rewrite Ew, upd_same in Hc.
     assert (Hw' : match w with WNothing => false | _ => true end = true) by (destruct w; [congruence|reflexivity|reflexivity]).
-    specialize (Hc Hw' eq_refl). rewrite <- I14, En in Hc. injection Hc as Hc. exact Hc.
+    specialize (Hc Hw' eq_refl). rewrite <- I14 in Hc. injection Hc as Hc. exact Hc.
   - apply (rel_tok_spec p A e t I15 HndA Hin Et).
 Qed.
 
@@ -972,4 +968,307 @@ Proof.
   - exact Hu.
   - intros q Hq Hd Hdl. apply Hfull; assumption.
   - apply (rel_tok_spec p A e t I15 HndA Hin Et).
+Qed.
+
+(* ------------------------------------------------------------------ Plan::ScheduleInitialEdges *)
+(* DelayEdge without ScheduleWork: the edge sits in delayed_ with want_ still kWantToStart *)
+Lemma pinv_delay_pure (Q : nat -> Prop) X A F p d :
+  pinv Q (d :: X) A F p -> p_want p d = Some WToStart -> all_inputs_ready g p d = true ->
+  ~ In d X -> 0 < depth g (pool g d) ->
+  pinv (fun r => Q r /\ r <> pool g d) X A F (set_delayed p (d :: p_delayed p)).
+Proof.
+  intros [I1 I2 I3 I4 I5 I6 I7 I8 I9 I10 I11 I12 I13 I14 I15] Hw Ha HnX Hdep.
+  assert (Hns : ~ In d (sched p A F)).
+  { intros Hin. rewrite (I6 d (or_introl eq_refl) Hin) in Hw. discriminate. }
+  set (p' := set_delayed p (d :: p_delayed p)).
+  assert (Hperm : Permutation (sched p' A F) (d :: sched p A F)).
+  { unfold sched, p'. psimpl. cbn [app]. symmetry. apply Permutation_middle. }
+  assert (Hin' : forall x, In x (sched p' A F) <-> x = d \/ In x (sched p A F)).
+  { intros x. split; intros H.
+    - apply (Permutation_in _ Hperm) in H. destruct H as [<-|H]; [left; reflexivity|right; exact H].
+    - apply (Permutation_in _ (Permutation_sym Hperm)). destruct H as [->|H]; [left; reflexivity|right; exact H]. }
+  constructor; try assumption.
+  - apply (Permutation_NoDup (Permutation_sym Hperm)). constructor; assumption.
+  - intros e He. apply Hin' in He. destruct He as [->|He]; [|apply I2; exact He].
+    split; [unfold is_wanted; change (p_want p' d) with (p_want p d); rewrite Hw; reflexivity|exact Ha].
+  - intros e He. apply Hin'. right. apply I3. exact He.
+  - intros e He Hae. destruct (I4 e He Hae) as [H|[H|H]].
+    + left. apply Hin'. right. exact H.
+    + left. apply Hin'. left. symmetry. exact H.
+    + right. exact H.
+  - intros e He Hae. destruct (I5 e He Hae) as [H|H]; [|exact H].
+    subst e. change (p_want p' d) with (p_want p d) in He. congruence.
+  - intros x Hx Hs. apply Hin' in Hs. destruct Hs as [->|Hs]; [contradiction|].
+    apply I6; [right; exact Hx|exact Hs].
+  - intros q [HQq Hq] Hdq Hdl. unfold p' in *. psimpl. apply I12; [exact HQq|exact Hdq|].
+    unfold delayed_of in *. cbn [filter] in Hdl.
+    destruct (Nat.eqb_spec (pool g d) q) as [E|E]; [congruence|exact Hdl].
+  - intros e He. unfold p' in He. psimpl. destruct He as [<-|He]; [exact Hdep|apply I13; exact He].
+Qed.
+
+Record wf_snap (sn : snapshot) : Prop := {
+  ws_oready_none : forall e, sn_oready sn e = true -> sn_want sn e = None;
+  ws_oready_closed : forall e, sn_oready sn e = true -> forallb (sn_oready sn) (ins g e) = true;
+  ws_no_tofinish : forall e, sn_want sn e <> Some WToFinish;
+  ws_closed : forall e i, sn_want sn e <> None -> In i (ins g e) -> sn_oready sn i = false ->
+              sn_want sn i <> None;
+  ws_nothing : forall e, sn_want sn e = Some WNothing -> forallb (sn_oready sn) (ins g e) = false;
+  ws_range : forall e, sn_want sn e <> None -> e < n_edges g;
+  ws_wanted : sn_wanted sn = count_if (is_wanted (sn_want sn)) (all_edges g);
+  ws_commands : sn_commands sn =
+                count_if (fun e => is_wanted (sn_want sn) e && negb (phony g e)) (all_edges g) }.
+
+Definition QF : nat -> Prop := fun _ => False.
+Definition nothing_blocked (p : plan) : Prop :=
+  forall x, p_want p x = Some WNothing -> all_inputs_ready g p x = false.
+
+Lemma snap_plan_pinv sn : wf_snap sn -> pinv QF (all_edges g) [] [] (snap_plan sn).
+Proof.
+  intros [W1 W2 W3 W4 W5 W6 W7 W8]. unfold snap_plan.
+  constructor; unfold sched; psimpl; cbn [app].
+  - constructor.
+  - intros e [].
+  - intros e He. exfalso. exact (W3 e He).
+  - intros e He _. right. apply all_edges_in. apply W6. congruence.
+  - intros e He _. apply all_edges_in. apply W6. congruence.
+  - intros x _ [].
+  - exact W1.
+  - exact W2.
+  - exact W4.
+  - exact W6.
+  - intros q _. unfold cnt. cbn. lia.
+  - intros q [].
+  - intros e [].
+  - exact W7.
+  - destruct (c_jobserver cfg); reflexivity.
+Qed.
+
+Lemma sched_init_edge_want_none e p x : p_want (sched_init_edge g e p) x = None <-> p_want p x = None.
+Proof.
+  unfold sched_init_edge. destruct (p_want p e) as [[| |]|] eqn:Ew; try reflexivity.
+  destruct (all_inputs_ready g p e); [|reflexivity].
+  destruct (Nat.eqb (depth g (pool g e)) 0); psimpl; [|reflexivity].
+  unfold upd. destruct (Nat.eqb_spec x e) as [->|Hne]; [|reflexivity].
+  rewrite Ew. split; discriminate.
+Qed.
+
+Lemma sched_init_fold sn : wf_snap sn -> forall l1 l2, all_edges g = l1 ++ l2 ->
+  let p := fold_left (fun pp e => sched_init_edge g e pp) l1 (snap_plan sn) in
+  pinv QF l2 [] [] p /\ (forall x, In x (sched p [] []) -> In x l1) /\ nothing_blocked p /\
+  p_commands p = sn_commands sn /\
+  (forall x, is_wanted (p_want p) x = is_wanted (sn_want sn) x).
+Proof.
+  intros Hws l1. induction l1 as [|e l1 IH] using rev_ind; intros l2 Hall.
+  - cbn [fold_left app] in *. rewrite <- Hall. split; [apply snap_plan_pinv; exact Hws|].
+    split; [intros x []|]. split; [|split; [reflexivity|intros x; reflexivity]].
+    intros x Hx. unfold snap_plan in *. psimpl. apply (ws_nothing sn Hws). exact Hx.
+  - rewrite fold_left_app. cbn [fold_left]. rewrite <- app_assoc in Hall. cbn [app] in Hall.
+    destruct (IH (e :: l2) Hall) as [HI [Hsub [Hnb [Hcmd Hisw]]]]. clear IH.
+    set (p := fold_left (fun pp e0 => sched_init_edge g e0 pp) l1 (snap_plan sn)) in *.
+    assert (Hnd : NoDup (l1 ++ e :: l2)) by (rewrite <- Hall; apply all_edges_nodup).
+    assert (He1 : ~ In e l1).
+    { apply NoDup_app_iff in Hnd. destruct Hnd as [_ [_ Hd]]. intros H. apply (Hd e H). left. reflexivity. }
+    assert (He2 : ~ In e l2).
+    { apply NoDup_app_iff in Hnd. destruct Hnd as [_ [Hd _]]. inversion Hd; assumption. }
+    assert (Hsub' : forall p', (forall x, In x (sched p' [] []) -> x = e \/ In x (sched p [] [])) ->
+                         forall x, In x (sched p' [] []) -> In x (l1 ++ [e])).
+    { intros p' H x Hx. apply in_or_app. destruct (H x Hx) as [->|H']; [right; left; reflexivity|left; apply Hsub; exact H']. }
+    unfold sched_init_edge.
+    destruct (p_want p e) as [[| |]|] eqn:Ew.
+    + split; [apply (pinv_drop _ e); [exact HI| |]; intros H1 H2; [congruence|]; rewrite (Hnb e H1) in H2; discriminate|].
+      split; [intros x Hx; apply in_or_app; left; apply Hsub; exact Hx|]. split; [exact Hnb|split; assumption].
+    + destruct (all_inputs_ready g p e) eqn:Ea.
+      * destruct (Nat.eqb_spec (depth g (pool g e)) 0) as [Hz|Hnz].
+        -- pose proof (pinv_schedule_pure QF l2 [] [] p e true HI Ew Ea Hz) as H.
+           split; [eapply pinv_weaken; [| |left; eassumption|exact H]; [intros q []|intros x Hx; exact Hx]|].
+           split.
+           { apply Hsub'. intros x Hx. unfold sched in *. psimpl. cbn [app] in *. rewrite app_nil_r in *.
+             destruct Hx as [<-|Hx]; [left; reflexivity|right; exact Hx]. }
+           split.
+           { intros x Hx. psimpl. unfold upd in Hx. destruct (Nat.eqb_spec x e) as [Heq|Hne]; [discriminate Hx|].
+             apply Hnb. exact Hx. }
+           split; [exact Hcmd|]. intros x. rewrite <- Hisw. unfold is_wanted. psimpl. unfold upd.
+           destruct (Nat.eqb_spec x e) as [->|Hne]; [rewrite Ew; reflexivity|reflexivity].
+        -- assert (Hpos : 0 < depth g (pool g e)) by lia.
+           pose proof (pinv_delay_pure QF l2 [] [] p e HI Ew Ea He2 Hpos) as H.
+           split; [eapply pinv_weaken; [| |left; eassumption|exact H]; [intros q []|intros x Hx; exact Hx]|].
+           split.
+           { apply Hsub'. intros x Hx. unfold sched in *. psimpl. cbn [app] in *. rewrite app_nil_r in *.
+             apply in_app_or in Hx. destruct Hx as [Hx|[<-|Hx]]; [right; apply in_or_app; left; exact Hx|left; reflexivity|right; apply in_or_app; right; exact Hx]. }
+           split; [exact Hnb|split; assumption].
+      * split; [apply (pinv_drop _ e); [exact HI| |]; intros H1 H2; congruence|].
+        split; [intros x Hx; apply in_or_app; left; apply Hsub; exact Hx|]. split; [exact Hnb|split; assumption].
+    + split; [apply (pinv_drop _ e); [exact HI| |]; intros H1 H2; congruence|].
+      split; [intros x Hx; apply in_or_app; left; apply Hsub; exact Hx|]. split; [exact Hnb|split; assumption].
+    + split; [apply (pinv_drop _ e); [exact HI| |]; intros H1 H2; congruence|].
+      split; [intros x Hx; apply in_or_app; left; apply Hsub; exact Hx|]. split; [exact Hnb|split; assumption].
+Qed.
+
+Lemma retrieve_fold_pinv prio : forall l (Q : nat -> Prop) p,
+  pinv Q [] [] [] p ->
+  pinv (fun r => Q r \/ In r l) [] [] [] (fold_left (fun pp q => retrieve g prio q pp) l p).
+Proof.
+  induction l as [|q l IH]; intros Q p HI; cbn [fold_left].
+  - eapply pinv_weaken; [| |left; eassumption|exact HI]; [intros r [H|[]] _; exact H|intros x Hx; exact Hx].
+  - pose proof (IH _ _ (retrieve_pinv Q [] [] [] p prio q HI)) as H.
+    eapply pinv_weaken; [| |left; eassumption|exact H]; [|intros x Hx; exact Hx].
+    intros r [Hr|[<-|Hr]] _; [left; left; exact Hr|left; right; reflexivity|right; exact Hr].
+Qed.
+
+Lemma fold_retrieve_keeps prio : forall l p,
+  let p' := fold_left (fun pp q => retrieve g prio q pp) l p in
+  p_want p' = p_want p /\ p_commands p' = p_commands p.
+Proof.
+  induction l as [|q l IH]; intros p; cbn [fold_left]; [split; reflexivity|].
+  destruct (IH (retrieve g prio q p)) as [H1 H2]. rewrite H1, H2, retrieve_want, retrieve_commands.
+  split; reflexivity.
+Qed.
+
+Lemma schedule_initial_pinv prio sn : wf_snap sn ->
+  let p := schedule_initial_plan g prio (snap_plan sn) in
+  pinv QT [] [] [] p /\ p_commands p = sn_commands sn /\
+  (forall x, is_wanted (p_want p) x = is_wanted (sn_want sn) x).
+Proof.
+  intros Hws. unfold schedule_initial_plan.
+  destruct (sched_init_fold sn Hws (all_edges g) [] (eq_sym (app_nil_r _))) as [HI [_ [_ [Hc Hw]]]].
+  set (p1 := fold_left (fun pp e => sched_init_edge g e pp) (all_edges g) (snap_plan sn)) in *.
+  destruct (fold_retrieve_keeps prio (seq 0 (length (g_depths g))) p1) as [K1 K2].
+  split; [|split; [rewrite K2; exact Hc|intros x; unfold is_wanted in *; rewrite K1; apply Hw]].
+  pose proof (retrieve_fold_pinv prio (seq 0 (length (g_depths g))) QF p1 HI) as H.
+  refine (QT_weaken _ _ _ _ _ _ H). intros q Hq. right. apply in_seq.
+  unfold depth in Hq. destruct (lt_dec q (length (g_depths g))) as [Hlt|Hge]; [lia|].
+  rewrite nth_overflow in Hq by lia. lia.
+Qed.
+
+(* ------------------------------------------------------------------ how want_/outputs_ready_ evolve *)
+Record evolf (w : nat -> option want_t) (o : nat -> bool) (c : nat) (p' : plan) : Prop := {
+  ev_want : forall x, p_want p' x = w x \/
+                      (w x = Some WToStart /\ p_want p' x = Some WToFinish) \/
+                      (w x = Some WNothing /\ p_want p' x = None /\ p_oready p' x = true);
+  ev_oready : forall x, p_oready p' x = true -> o x = true \/ w x = Some WNothing;
+  ev_mono : forall x, o x = true -> p_oready p' x = true;
+  ev_commands : p_commands p' = c }.
+
+Definition evol (p p' : plan) : Prop := evolf (p_want p) (p_oready p) (p_commands p) p'.
+
+Lemma evol_refl p : evol p p.
+Proof. constructor; [intros x; left; reflexivity|intros x H; left; exact H|intros x H; exact H|reflexivity]. Qed.
+
+Lemma evolf_trans w o c p1 p2 : evolf w o c p1 -> evol p1 p2 -> evolf w o c p2.
+Proof.
+  intros [A1 A2 A3 A4] [B1 B2 B3 B4]. constructor.
+  - intros x. destruct (A1 x) as [Ha|[[Ha1 Ha2]|[Ha1 [Ha2 Ha3]]]]; destruct (B1 x) as [Hb|[[Hb1 Hb2]|[Hb1 [Hb2 Hb3]]]].
+    + left. congruence.
+    + right. left. split; congruence.
+    + right. right. repeat split; congruence.
+    + right. left. split; congruence.
+    + congruence.
+    + congruence.
+    + right. right. repeat split; [exact Ha1|congruence|apply B3; exact Ha3].
+    + congruence.
+    + congruence.
+  - intros x Hx. destruct (B2 x Hx) as [H|H].
+    + apply A2. exact H.
+    + destruct (A1 x) as [Ha|[[Ha1 Ha2]|[Ha1 [Ha2 Ha3]]]].
+      * right. congruence.
+      * congruence.
+      * right. exact Ha1.
+  - intros x Hx. apply B3. apply A3. exact Hx.
+  - congruence.
+Qed.
+
+Lemma evol_trans p1 p2 p3 : evol p1 p2 -> evol p2 p3 -> evol p1 p3.
+Proof. apply evolf_trans. Qed.
+
+Lemma evolf_fields w o c p1 p2 : evolf w o c p1 ->
+  p_want p2 = p_want p1 -> p_oready p2 = p_oready p1 -> p_commands p2 = p_commands p1 ->
+  evolf w o c p2.
+Proof.
+  intros [A1 A2 A3 A4] E1 E2 E3. constructor.
+  - intros x. rewrite E1, E2. apply A1.
+  - intros x. rewrite E2. apply A2.
+  - intros x. rewrite E2. apply A3.
+  - rewrite E3. exact A4.
+Qed.
+
+Lemma retrieve_evolf w o c prio q p : evolf w o c p -> evolf w o c (retrieve g prio q p).
+Proof.
+  intros [A1 A2 A3 A4]. constructor.
+  - intros x. rewrite retrieve_want, retrieve_oready. apply A1.
+  - intros x. rewrite retrieve_oready. apply A2.
+  - intros x. rewrite retrieve_oready. apply A3.
+  - rewrite retrieve_commands. exact A4.
+Qed.
+
+Lemma schedule_work_evol prio d p p' : schedule_work g prio d p = Ok p' -> evol p p'.
+Proof.
+  unfold schedule_work. destruct (p_want p d) as [[| |]|] eqn:Ew; try discriminate.
+  - assert (H : evol p (set_want p (upd (p_want p) d (Some WToFinish)))).
+    { constructor; psimpl; try (intros x Hx; try left; exact Hx); [|reflexivity].
+      intros x. unfold upd. destruct (Nat.eqb_spec x d) as [->|Hne]; [right; left; split; [exact Ew|reflexivity]|left; reflexivity]. }
+    destruct (Nat.eqb (depth g (pool g d)) 0); intros H'; injection H' as <-.
+    + apply (evolf_fields _ _ _ _ _ H); reflexivity.
+    + apply retrieve_evolf. apply (evolf_fields _ _ _ _ _ H); reflexivity.
+  - intros H. injection H as <-. apply evol_refl.
+Qed.
+
+Lemma ef_evol_all fuel :
+  (forall prio d p p', p_want p d = Some WNothing ->
+     edge_finished fuel g cfg prio d true false p = Ok p' -> evol p p') /\
+  (forall prio l p p', fold_res (visit fuel prio) l p = Ok p' -> evol p p').
+Proof.
+  assert (Hfold : forall fuel,
+    (forall prio d p p', p_want p d = Some WNothing ->
+       edge_finished fuel g cfg prio d true false p = Ok p' -> evol p p') ->
+    forall prio l p p', fold_res (visit fuel prio) l p = Ok p' -> evol p p').
+  { intros f Hrec prio l. induction l as [|d l IH]; intros p p' Hf; cbn [fold_res] in Hf.
+    - injection Hf as <-. apply evol_refl.
+    - destruct (visit f prio d p) as [p1| |] eqn:Ev; try discriminate.
+      apply (evol_trans p p1 p'); [|apply IH; exact Hf].
+      unfold visit in Ev. destruct (p_want p d) as [wd|] eqn:Ewd; [|injection Ev as <-; apply evol_refl].
+      destruct (all_inputs_ready g p d); [|injection Ev as <-; apply evol_refl].
+      destruct wd; cbn [want_eqb] in Ev.
+      + apply (Hrec prio d p p1 Ewd Ev).
+      + apply (schedule_work_evol prio d p p1 Ev).
+      + apply (schedule_work_evol prio d p p1 Ev). }
+  induction fuel as [|fuel [IH1 IH2]].
+  - assert (H0 : forall prio d p p', p_want p d = Some WNothing ->
+       edge_finished 0 g cfg prio d true false p = Ok p' -> evol p p') by (intros prio d p p' _ H; discriminate H).
+    split; [exact H0|apply Hfold; exact H0].
+  - assert (H1 : forall prio d p p', p_want p d = Some WNothing ->
+       edge_finished (S fuel) g cfg prio d true false p = Ok p' -> evol p p').
+    { intros prio d p p' Hw Hef. rewrite (ef_nothing_eq fuel prio d p Hw) in Hef.
+      refine (evolf_trans _ _ _ _ _ _ (IH2 prio _ _ _ Hef)).
+      apply retrieve_evolf. constructor; psimpl.
+      - intros x. unfold upd. destruct (Nat.eqb_spec x d) as [->|Hne]; [|left; reflexivity].
+        right. right. repeat split; [exact Hw|]. rewrite Nat.eqb_refl. reflexivity.
+      - intros x. unfold upd. destruct (Nat.eqb_spec x d) as [->|Hne]; [intros _; right; exact Hw|intros H; left; exact H].
+      - intros x Hx. unfold upd. destruct (Nat.eqb x d); [reflexivity|exact Hx].
+      - reflexivity. }
+    split; [exact H1|apply Hfold; exact H1].
+Qed.
+
+Lemma ef_top_evol fuel prio e succ p p' w : p_want p e = Some w -> w <> WNothing ->
+  edge_finished fuel g cfg prio e succ true p = Ok p' ->
+  if succ then evolf (upd (p_want p) e None) (upd (p_oready p) e true) (p_commands p) p'
+  else evol p p'.
+Proof.
+  intros Hw Hn Hef. destruct fuel as [|fuel]; [discriminate Hef|].
+  rewrite (ef_top_eq fuel prio e succ p w Hw Hn) in Hef.
+  destruct (rel_use p (pool g e)) as [u|]; [|discriminate].
+  destruct (rel_tok p) as [t|]; [|discriminate].
+  destruct succ; cbn [negb] in Hef.
+  - destruct (p_wanted p) as [|n]; [discriminate|].
+    destruct (ef_evol_all fuel) as [_ Hfold].
+    refine (evolf_trans _ _ _ _ _ _ (Hfold prio _ _ _ Hef)).
+    apply retrieve_evolf. constructor; psimpl; try (intros x Hx; try left; exact Hx); [|reflexivity].
+    intros x. left. reflexivity.
+  - injection Hef as <-. apply retrieve_evolf. constructor; psimpl; try (intros x Hx; try left; exact Hx); [|reflexivity].
+    intros x. left. reflexivity.
+Qed.
+
+Lemma evolf_is_wanted w o c p' : evolf w o c p' -> forall x, is_wanted (p_want p') x = is_wanted w x.
+Proof.
+  intros [A1 _ _ _] x. unfold is_wanted.
+  destruct (A1 x) as [Ha|[[Ha1 Ha2]|[Ha1 [Ha2 _]]]]; [rewrite Ha; reflexivity|rewrite Ha1, Ha2; reflexivity|rewrite Ha1, Ha2; reflexivity].
 Qed.
